@@ -127,6 +127,28 @@ def run_init_and_accessors(ctx, mods):
                                                                     "while the object reports the caller's setting", shape_free=True)
                     except Exception as e:
                         o.undecided(f"constructor order analysis of {ci.name} failed: {type(e).__name__}: {e}", own0)
+                # several OPTIONAL keys read inside one swallowing try: the first missing key also discards the ones read after it
+                if own0 is not None and len(own0.params) >= 2:
+                    pp0 = own0.params[1]
+                    for tr_ in [n for n in astx.walk_fn(own0.node) if isinstance(n, ast.Try)]:
+                        sw = [h_ for h_ in tr_.handlers if all(isinstance(x_, (ast.Pass, ast.Continue)) or (isinstance(x_, ast.Expr) and isinstance(x_.value, ast.Constant)) for x_ in h_.body)
+                              and (h_.type is None or any(nm_ in txt(h_.type) for nm_ in ("KeyError", "Exception", "LookupError")))]
+                        if not sw:
+                            continue
+                        reads = []
+                        for st_ in tr_.body:
+                            ks_ = [txt(x_.slice) for x_ in ast.walk(st_) if isinstance(x_, ast.Subscript) and txt(x_.value) == pp0]
+                            if ks_ and isinstance(st_, (ast.Assign, ast.AnnAssign)) and any(astx.self_attr(t_) for t_ in (st_.targets if isinstance(st_, ast.Assign) else [st_.target])):
+                                reads.append((st_, ks_[0]))
+                        keys_ = []
+                        for _, k_ in reads:
+                            if k_ not in keys_:
+                                keys_.append(k_)
+                        if len(keys_) >= 2:
+                            bad = True
+                            later = next(st_ for st_, k_ in reads if k_ != keys_[0])
+                            o.violated(own0, later, f"`{txt(later)[:60]}` sits in one `try: .. except {txt(sw[0].type) if sw[0].type is not None else ''}: pass` with the read of {pp0}[{keys_[0]}]: "
+                                                   f"when {keys_[0]} is absent the handler swallows the error and {keys_[1]} - which the caller DID pass - is never stored", shape_free=True)
                 # configuration keys: self.<attr> <- params[KEY] as on the pinned tree
                 own_init = ci.methods.get("__init__")
                 wantp = _init_params().get(ci.name)
@@ -487,6 +509,76 @@ def run(ctx):
                                               "(and every vertex attribute, for a plain re-build) is gone, so isolated vertices drop out of sizes, fractions and joint degrees", shape_free=True)
                     else:
                         o.undecided(f"`{txt(c13)[:60]}` re-builds a graph from its edges (isolated vertices are lost); how the result is used is not decided", f13, st13 or c13)
+            # ---- S14: an object read from a vertex / edge annotation of a graph (`G.nodes[u][K]`, `G.edges[e][K]`) and written INTO in place
+            # (`x[i] -= 1`, `x.append(..)`) without a copy is the caller's annotation: `G.copy()` copies the attribute dictionaries but not
+            # the lists stored in them, so the write lands in the input network as well
+            def _annot(e_):
+                return isinstance(e_, ast.Subscript) and isinstance(e_.value, ast.Subscript) and isinstance(e_.value.value, ast.Attribute) \
+                    and e_.value.value.attr in ("nodes", "edges", "_node", "_adj")
+            for f14 in [f_ for f_ in prog.all_functions() if f_.module is mi]:
+                alias = {}
+                for n14 in astx.walk_fn(f14.node):
+                    if isinstance(n14, (ast.Assign, ast.AnnAssign)) and getattr(n14, "value", None) is not None:
+                        t14 = n14.targets[0] if isinstance(n14, ast.Assign) and len(n14.targets) == 1 else (n14.target if isinstance(n14, ast.AnnAssign) else None)
+                        if isinstance(t14, ast.Name):
+                            if _annot(n14.value):
+                                alias[t14.id] = ("self", n14)
+                            elif isinstance(n14.value, (ast.ListComp, ast.List, ast.Tuple)):
+                                els = [n14.value.elt] if isinstance(n14.value, ast.ListComp) else n14.value.elts
+                                if els and all(_annot(e_) for e_ in els):
+                                    alias[t14.id] = ("elements", n14)
+                for n14 in astx.walk_fn(f14.node):
+                    if isinstance(n14, ast.For) and isinstance(n14.target, ast.Name) and isinstance(n14.iter, ast.Name) and alias.get(n14.iter.id, ("", None))[0] == "elements":
+                        alias[n14.target.id] = ("self", alias[n14.iter.id][1])
+                for n14 in astx.walk_fn(f14.node):
+                    tgt = None
+                    if isinstance(n14, (ast.Assign, ast.AugAssign)):
+                        for t_ in (n14.targets if isinstance(n14, ast.Assign) else [n14.target]):
+                            if isinstance(t_, ast.Subscript) and isinstance(t_.value, ast.Name) and alias.get(t_.value.id, ("", None))[0] == "self":
+                                tgt = t_.value.id
+                    elif isinstance(n14, ast.Call) and isinstance(n14.func, ast.Attribute) and n14.func.attr in astx.MUTATOR_METHODS and isinstance(n14.func.value, ast.Name) \
+                            and alias.get(n14.func.value.id, ("", None))[0] == "self":
+                        tgt = n14.func.value.id
+                    if tgt is not None:
+                        found = True
+                        src14 = alias[tgt][1]
+                        o.violated(f14, n14 if isinstance(n14, ast.stmt) else (astx.Parents(f14.node).stmt_of(n14) or n14),
+                                   f"S14: `{txt(n14)[:50]}` writes into the object read from a graph annotation (`{txt(src14)[:70]}`, no copy): a list-valued annotation of the "
+                                   "caller's network is modified in place (G.copy() shares the attribute VALUES)", shape_free=True)
+            # ---- S15: `try: for x in xs: <accumulate d[..x..]> except KeyError: continue / pass` - the handler sits OUTSIDE the loop, so the first
+            # item that raises ends the loop for every item after it (an `if key in d` test, or a try inside the loop, skips one item only)
+            for f15 in [f_ for f_ in prog.all_functions() if f_.module is mi]:
+                for tr15 in [n for n in astx.walk_fn(f15.node) if isinstance(n, ast.Try)]:
+                    sw15 = [h_ for h_ in tr15.handlers if h_.type is not None and any(nm_ in txt(h_.type) for nm_ in ("KeyError", "IndexError", "LookupError"))
+                            and all(isinstance(x_, (ast.Pass, ast.Continue)) or (isinstance(x_, ast.Expr) and isinstance(x_.value, ast.Constant)) for x_ in h_.body)]
+                    body15 = [s_ for s_ in tr15.body if not (isinstance(s_, ast.Expr) and isinstance(s_.value, ast.Constant))]
+                    if sw15 and len(body15) == 1 and isinstance(body15[0], ast.For) and not tr15.orelse and not tr15.finalbody:
+                        lp15 = body15[0]
+                        acc15 = [x_ for x_ in ast.walk(lp15) if isinstance(x_, (ast.Assign, ast.AugAssign)) and any(isinstance(t_, ast.Subscript) for t_ in (x_.targets if isinstance(x_, ast.Assign) else [x_.target]))]
+                        loads15 = [x_ for x_ in ast.walk(lp15) if isinstance(x_, ast.Subscript) and isinstance(x_.ctx, ast.Load) and astx.names_in(x_.slice) & astx.names_in(lp15.target)]
+                        if acc15 and loads15:
+                            found = True
+                            o.violated(f15, tr15, f"S15: the whole loop `for {txt(lp15.target)} in {txt(lp15.iter)[:30]}` sits inside `try: .. except {txt(sw15[0].type)}: "
+                                                  f"{'continue' if isinstance(sw15[0].body[-1], ast.Continue) else 'pass'}`: the first item for which `{txt(loads15[0])[:40]}` is missing "
+                                                  "abandons all the items after it, so the accumulated value lacks their contributions", shape_free=True)
+            # ---- S16: `for x in xs: if x == 0: break; acc *= x` - the zero factor ends the loop BEFORE it is multiplied in, so the product stays
+            # non-zero (the short-circuit belongs after the multiplication, or must set the product to 0)
+            for f16 in [f_ for f_ in prog.all_functions() if f_.module is mi]:
+                for lp16 in [n for n in astx.walk_fn(f16.node) if isinstance(n, ast.For)]:
+                    for i16, st16 in enumerate(lp16.body[:-1]):
+                        if not (isinstance(st16, ast.If) and not st16.orelse and len(st16.body) == 1 and isinstance(st16.body[0], (ast.Break, ast.Continue))):
+                            continue
+                        t16 = st16.test
+                        if not (isinstance(t16, ast.Compare) and len(t16.ops) == 1 and isinstance(t16.ops[0], ast.Eq) and astx.const_value(t16.comparators[0]) == 0):
+                            if not (isinstance(t16, ast.UnaryOp) and isinstance(t16.op, ast.Not)):
+                                continue
+                        fac16 = txt(t16.left) if isinstance(t16, ast.Compare) else txt(t16.operand)
+                        nxt16 = lp16.body[i16 + 1]
+                        if isinstance(nxt16, ast.AugAssign) and isinstance(nxt16.op, ast.Mult) and txt(nxt16.value) == fac16 and isinstance(nxt16.target, ast.Name) \
+                                and fac16 in astx.names_in(lp16.target):
+                            found = True
+                            o.violated(f16, st16, f"S16: `if {txt(t16)}: {type(st16.body[0]).__name__.lower()}` comes BEFORE `{txt(nxt16)}`: the zero factor is never multiplied in, "
+                                                  f"so `{txt(nxt16.target)}` keeps the product of the factors seen so far instead of becoming 0", shape_free=True)
             # ---- S11: `dict.fromkeys(keys, [])` gives every key the SAME list / dict / set object; S12: an augmented assignment to the loop
             # variable of `for k, v in d.items(): v *= s` re-binds a local (numbers are immutable) and leaves the container as it was
             for f11 in [f_ for f_ in prog.all_functions() if f_.module is mi]:
